@@ -332,6 +332,8 @@ func Check[C any](t *testing.T, r *Rec, sub string, checks int, gen func(*rapid.
 		return
 	}
 	regress(r, sub, run)
+	began := time.Now()
+	defer func() { r.Extra("shard_seconds/"+sub, int64(time.Since(began).Seconds())) }()
 	var lastCase *C
 	var lastViol []Violation
 	flagMu.Lock()
